@@ -402,3 +402,14 @@ Theorem c09_amounts_from_bytes :
     end.
 Proof. exact amounts_from_bytes_thm. Qed.
 Print Assumptions c09_amounts_from_bytes.
+
+(* non-vacuity of the hypothesis on [bytes_of] in c09_data_is_the_lines / c09_amounts_from_bytes: lines of n letters 'a' *)
+Example c09_nonvacuous_bytes_of :
+  forall n : nat, exists body,
+    repeat 97 n ++ [10] = body ++ [10] /\ Forall (fun c => c <> 10) body /\
+    zlength (repeat 97 n ++ [10]) = Z.of_nat n + 1.
+Proof.
+  intros n. exists (repeat 97 n). split; [reflexivity|]. split.
+  - apply Forall_forall. intros c Hc. apply repeat_spec in Hc. subst c. discriminate.
+  - unfold zlength. rewrite app_length, repeat_length. cbn [length]. rewrite Nat2Z.inj_add. reflexivity.
+Qed.
